@@ -26,11 +26,13 @@ ConnInit == << Cnew("N", U), Ccreate("NL", 1, U, 0), Ccreate("LD", 1, U, 0), Ccr
                Ccreate("DC", 1, U, 2), Ccreate("DP", 1, U, 1), Ccreate("DP", 2, U, 1),
                Cchild(1, U, 2), Cchild(1, U, 2) >>
 (* skeleton of the mirror scope: parent d1 with cable c1 (1 wire), shape-   *)
-(* compatible d2, d3 (one one-pin port each), i1, i2 instances of d2 in d1, *)
-(* i1's pin connected                                                       *)
+(* compatible d2, d3 (two one-pin ports each, d2's first port named "a"),   *)
+(* i1, i2 instances of d2 in d1, i1's first pin connected                   *)
 MirrorInit == << Cnew("N", U), Ccreate("NL", 1, U, 0), Ccreate("LD", 1, U, 0), Ccreate("LD", 1, U, 0),
-                 Ccreate("LD", 1, U, 0), Ccreate("DC", 1, U, 1), Ccreate("DP", 2, U, 1),
-                 Ccreate("DP", 3, U, 1), Cchild(1, U, 2), Cchild(1, U, 2),
+                 Ccreate("LD", 1, U, 0), Ccreate("DC", 1, U, 1),
+                 Ccreate("DP", 2, "a", 1), Ccreate("DP", 2, U, 1),
+                 Ccreate("DP", 3, U, 1), Ccreate("DP", 3, U, 1),
+                 Cchild(1, U, 2), Cchild(1, U, 2),
                  Cconnect(1, OPin(1, 1)) >>
 (* containment scope: two netlists, libraries and definitions moving around *)
 ContainInit == << Cnew("N", U), Cnew("N", U), Ccreate("NL", 1, U, 0), Ccreate("LD", 1, U, 0) >>
@@ -38,8 +40,23 @@ ContainInit == << Cnew("N", U), Cnew("N", U), Ccreate("NL", 1, U, 0), Ccreate("L
 BodyInit == << Cnew("N", U), Ccreate("NL", 1, U, 0), Ccreate("LD", 1, U, 0), Ccreate("LD", 1, U, 0),
                Ccreate("DP", 1, U, 0), Ccreate("DC", 1, U, 0), Cchild(1, U, 2), Ccreate("DP", 2, U, 0) >>
 
+NamingInit(pol) == << Csetdefault(pol), Cnew("N", U), Ccreate("NL", 1, "a", 0), Ccreate("LD", 1, "a", 0),
+                      Ccreate("LD", 1, "b", 0), Ccreate("DP", 1, "a", 0), Ccreate("DC", 1, "a", 0),
+                      Cchild(1, "a", 2) >>
+NamingOps == {"new:P", "new:D", "new:I", "add:DP", "add:LD", "add:DI", "remove:DP", "remove:LD", "remove:DI",
+              "create:DP", "create:LD", "create_child", "set_name:P", "set_name:D", "set_name:I",
+              "del_name:P", "del_name:D", "set_eid:P", "set_eid:D", "del_item:P", "del_item:D"}
+NamingScope(pol, extra) ==
+      [init |-> NamingInit(pol), ops |-> NamingOps \cup extra,
+       max |-> [N |-> 1, L |-> 1, D |-> 3, P |-> 2, C |-> 1, I |-> 2, Q |-> 0, W |-> 0],
+       names |-> {"a", "A"}, vals |-> {"a", "A", "1x"}, pos |-> {NoPos}, createN |-> {0},
+       lookupVals |-> {"a", "A", "b"}]
+
 ScopeTable ==
-  [ conn |->
+  [ naming |-> NamingScope("DEFAULT", {}),
+    naming_edif |-> NamingScope("EDIF", {}),
+    naming_mix |-> NamingScope("DEFAULT", {"set_default", "set_ns:P", "set_ns:D"}),
+    conn |->
       [init |-> ConnInit,
        ops |-> {"connect", "disconnect", "disconnect_from", "reorder_pins", "create:PQ", "add:PQ",
                 "remove:PQ", "remove_from:PQ", "reorder:PQ", "new:Q", "remove:DP", "add:DP",
@@ -51,8 +68,13 @@ ScopeTable ==
        ops |-> {"add:DP", "create:DP", "create:PQ", "add:PQ", "remove:PQ", "remove:DP", "remove_from:DP",
                 "remove_from:PQ", "set_ref", "create_child", "remove:DI", "add:DI", "set_top_def",
                 "set_top", "new:P", "new:Q", "connect", "create_n:PQ"},
-       max |-> [N |-> 1, L |-> 1, D |-> 3, P |-> 3, C |-> 1, I |-> 3, Q |-> 4, W |-> 1],
-       names |-> {U}, vals |-> {}, pos |-> {NoPos}, createN |-> {0, 2}],
+       max |-> [N |-> 1, L |-> 1, D |-> 3, P |-> 5, C |-> 1, I |-> 3, Q |-> 6, W |-> 1],
+       names |-> {U, "a"}, vals |-> {}, pos |-> {NoPos}, createN |-> {0, 2}],
+    mirror_add |->
+      [init |-> MirrorInit,
+       ops |-> {"new:P", "new:Q", "create:PQ", "add:DP", "add:PQ", "remove:DP", "remove:PQ", "set_ref"},
+       max |-> [N |-> 1, L |-> 1, D |-> 3, P |-> 5, C |-> 1, I |-> 2, Q |-> 6, W |-> 1],
+       names |-> {U, "a"}, vals |-> {}, pos |-> {NoPos, 0}, createN |-> {0}],
     contain |->
       [init |-> ContainInit,
        ops |-> {"create:NL", "add:NL", "remove:NL", "remove_from:NL", "reorder:NL", "new:L",
@@ -71,11 +93,12 @@ ScopeTable ==
 Scope == ScopeTable[ScopeName]
 
 ---------------------------------------------------------------------------
-StateProps(s) == C01_State(s) /\ C02_State(s)
+StateProps(s) == C01_State(s) /\ C02_State(s) /\ C10_Unique(s) /\ C10_LegalIds(s)
 ActionProps(pre, c, out, post) ==
     /\ C01_ReorderPermutes(pre, c, post)
     /\ C02_RepointKeeps(pre, c, out, post)
     /\ C14_RefusedUnchanged(pre, out, post)
+    /\ C10_RefusalExact(pre, c, out)
 
 Init == ir = ApplySeq(Empty, Scope.init) /\ hist = <<>>
 Next == \E c \in Cands(ir, Scope) :
@@ -93,9 +116,12 @@ Inv_C01_PinWire     == C01_PinWire(ir)
 Inv_C02_RefSets     == C02_RefSets(ir)
 Inv_C02_OuterPins   == C02_OuterPinMirror(ir)
 Inv_C02_Dropped     == C02_DroppedOffWire(ir)
+Inv_C10_Unique      == C10_Unique(ir)
+Inv_C10_LegalIds    == C10_LegalIds(ir)
 
 EmitState ==
     IF Emit /\ Len(hist) <= MaxDepth THEN PrintT(<<"ST", ToJson([h |-> hist, c |-> Cands(ir, Scope)])>>) ELSE TRUE
-EmitInit == PrintT(<<"INIT", ToJson([init |-> Scope.init])>>)
+LookupVals == IF "lookupVals" \in DOMAIN Scope THEN Scope.lookupVals ELSE {}
+EmitInit == PrintT(<<"INIT", ToJson([init |-> Scope.init, lookup |-> LookupVals])>>)
 ASSUME Emit => EmitInit
 =============================================================================
